@@ -60,6 +60,12 @@ public:
       QUILL_THROW(QuillError("`%X` as format modifier is not currently supported in format: " + _timestamp_format));
     }
 
+    // %c and the %E / %O modified conversions can expand to the time of day, which the cached
+    // pre-formatted string does not track; such formats are always formatted with strftime
+    _always_use_strftime = (_timestamp_format.find("%c") != std::string::npos) ||
+      (_timestamp_format.find("%E") != std::string::npos) ||
+      (_timestamp_format.find("%O") != std::string::npos);
+
     // We first look for some special format modifiers and replace them
     _replace_all(_timestamp_format, "%r", "%I:%M:%S %p");
     _replace_all(_timestamp_format, "%R", "%H:%M");
@@ -75,7 +81,7 @@ public:
     // First we check for the edge case where the given timestamp is back in time. This is when
     // the timestamp provided is less than our cached_timestamp. We only expect to format timestamps
     // that are incrementing not those back in time. In this case we just fall back to calling strfime
-    if (timestamp < _cached_timestamp)
+    if ((timestamp < _cached_timestamp) || _always_use_strftime)
     {
       _fallback_formatted = _safe_strftime(_timestamp_format.data(), timestamp, _time_zone).data();
       return _fallback_formatted;
@@ -447,6 +453,8 @@ private:
 
   /** gmtime or localtime */
   Timezone _time_zone{Timezone::GmtTime};
+
+  bool _always_use_strftime{false};
 };
 } // namespace detail
 
